@@ -1,5 +1,5 @@
 (* C04 — A connection ends exactly once: Disconnected xor a successful local remove(). *)
-From MIO Require Import Base Gen ResId ResIdProofs Driver DriverProofs.
+From MIO Require Import Base Gen ResId ResIdProofs Driver DriverProofs DriverIso.
 Local Open Scope N_scope.
 
 Theorem C04_gen_obligation : layout_ok gen_layout = true.
@@ -37,6 +37,18 @@ Example C04_examples :
      ORet (URemove 5) (RRemove true)].
 Proof. split; vm_compute; reflexivity. Qed.
 
+(* The positive half ("exactly one", not only "at most one"): when the peer closes an established
+   connection -- the adapter's receive() answers Disconnected -- and neither user code nor another
+   thread interferes, that very process() call delivers every chunk that preceded the close, in
+   order, then exactly one Disconnected for the endpoint, and the registry has forgotten it. *)
+Theorem C04_peer_close_delivers_data_then_one_disconnected : forall (s : dstate) (id : rid) (a : answer) (p : rprops),
+  resource_type gen_layout id = Remote -> find_remote id (remotes s) = Some p -> r_ready p = true ->
+  a_read a = RDisconnected -> quiet a ->
+  snd (process s id Read a) = chunk_events (id, r_peer p) (a_chunks a) ++ [OEv (Disconnected (id, r_peer p))] /\
+  find_remote id (remotes (fst (process s id Read a))) = None.
+Proof. exact peer_close_delivers_data_then_one_disconnected. Qed.
+
 Print Assumptions C04_gen_obligation.
+Print Assumptions C04_peer_close_delivers_data_then_one_disconnected.
 Print Assumptions C04_end_exactly_once.
 Print Assumptions C04_after_end.
